@@ -16,4 +16,5 @@ def check(run, replay=None):
     return replyprops.check(run, "C07", "Props/C07", THEOREMS, replay,
                             translated=[("Props/C07T", ["c07_translated_declared_handlers_run", "c07_translated_pass_through",
                                                        "c07_translated_always_handler"]),
-                                        ("Props/C07R", ["c07_translated_reply_entry_of_one_handler", "c07_translated_payload_of_a_handler"])])
+                                        ("Props/C07R", ["c07_translated_reply_entry_of_one_handler", "c07_translated_payload_of_a_handler",
+                                                        "c07_translated_second_handler_of_a_reply_id", "c07_translated_an_is_payload_marked"])])
